@@ -91,11 +91,11 @@ def g_pred(r, names, depth):
         return ['last']
     if x < 0.38:
         return ['lastminus', 1]
-    if x < 0.47:
+    if x < 0.44:
         return ['pos', r.choice(['=', '!=', '<', '<=', '>', '>=']), r.randint(1, 3)]
     if x < 0.50:
         # numeric predicates whose value varies with the item: several items can match
-        if depth >= 2 or r.random() < 0.3:
+        if depth >= 2 or r.random() < 0.5:
             return ['posnum']
         return ['countnum', g_path(r, names, depth + 1, rel=True, maxsteps=1), r.choice([0, 0, 1])]
     if x < 0.58:
